@@ -31,14 +31,54 @@ func init() {
 		"internal/race.Read", "internal/race.Write", "internal/race.ReadRange", "internal/race.WriteRange",
 		"internal/godebug.registerMetric", "internal/godebug.setUpdate", "internal/godebug.setNewIncNonDefault",
 		"(*internal/godebug.Setting).IncNonDefault", "runtime.SetCPUProfileRate", "os.runtime_args", "runtime.procPin", "runtime.procUnpin",
-		"internal/runtime/sys.Prefetch", "(*sync.Pool).Put", "sync.runtime_registerPoolCleanup", "sync.runtime_notifyListCheck", "sync.throw", "sync.fatal",
+		"internal/runtime/sys.Prefetch", "sync.runtime_registerPoolCleanup", "sync.runtime_notifyListCheck", "sync.throw", "sync.fatal",
 		"time.Sleep",
 	} {
 		ext[n] = nop
 	}
 	ext["(*sync.Mutex).TryLock"] = func(in *Interp, fr *frame, args []value) value { return true }
+	// sync.Pool, adversarial model: a []byte handed to Put is overwritten with fresh symbolic octets (whoever gets it
+	// next may write anything into it, at any time) and is the next buffer Get returns (LIFO reuse).
+	ext["(*sync.Pool).Put"] = func(in *Interp, fr *frame, args []value) value {
+		it, ok := args[1].(iface)
+		if !ok {
+			return nil
+		}
+		b, isBytes := it.v.([]value)
+		if !isBytes || len(b) == 0 || in.inInit {
+			return nil
+		}
+		if _, isOctet := b[0].(uint64); !isOctet {
+			if _, isT := b[0].(*Term); !isT {
+				return nil
+			}
+		}
+		in.uniq++
+		id := in.uniq
+		if in.cfg.Concrete == nil {
+			in.stubs["sync.Pool.Put overwrites the buffer with arbitrary octets"]++
+			for i := range b {
+				in.store(&b[i], in.freshVar(fmt.Sprintf("pool%d.%d", id, i), 8))
+			}
+		}
+		m, _ := in.natives["pools"].(map[*value][]value)
+		if m == nil {
+			m = map[*value][]value{}
+			in.natives["pools"] = m
+		}
+		key := args[0].(*value)
+		m[key] = append(m[key], it)
+		return nil
+	}
 	ext["(*sync.Pool).Get"] = func(in *Interp, fr *frame, args []value) value {
 		p := args[0].(*value)
+		if m, _ := in.natives["pools"].(map[*value][]value); m != nil {
+			if l := m[p]; len(l) > 0 {
+				it := l[len(l)-1]
+				m[p] = l[:len(l)-1]
+				return it
+			}
+		}
 		st := (*p).(structV)
 		// field "New" is the last field of sync.Pool
 		newFn := st[len(st)-1]
